@@ -102,8 +102,13 @@ def handle_exception_table():
     classes = [("exc", False, Exception), ("AbortTest", False, lcc.AbortTest), ("AbortSuite", False, lcc.AbortSuite),
                ("AbortAllTests", False, lcc.AbortAllTests), ("AbortTest", True, TestGivesUp),
                ("AbortSuite", True, SuiteUnusable), ("AbortAllTests", True, EnvironmentDown)]
+    # what the exception object is constructed with: one message string (what the framework's own tests do), nothing, the
+    # exception that was caught (`raise lcc.AbortTest(e)`), a number, a message and a code, two strings — the decision and the
+    # number of error logs must not depend on it (the model reads the class only), and handle_exception itself must not raise
+    shapes = [("str", lambda: ("boom",)), ("none", lambda: ()), ("exc", lambda: (ValueError("caught"),)), ("int", lambda: (404,)),
+              ("two", lambda: ("boom", 7)), ("twostr", lambda: ("boom", "giving up"))]
     rows = []
-    for (kind, sub, cls) in classes:
+    for (kind, sub, cls), (shape, mk_args) in itertools.product(classes, shapes):
         for with_suite in (False, True):
             suite, other = Suite(None, "s", "s"), Suite(None, "o", "o")
             inner = Suite(None, "sub", "sub")
@@ -114,19 +119,25 @@ def handle_exception_table():
             other.add_test(t_other)
             sess = Sess()
             ctx = RunContext(sess, None, False, False)
+            raised = None
             try:
-                raise cls("boom")
+                raise cls(*mk_args())
             except Exception as e:          # handle_exception reads the implicit traceback of the handled exception
-                if with_suite:
-                    ctx.handle_exception(e, suite)
-                else:
-                    ctx.handle_exception(e)
+                try:
+                    if with_suite:
+                        ctx.handle_exception(e, suite)
+                    else:
+                        ctx.handle_exception(e)
+                except Exception as e2:
+                    raised = type(e2).__name__
             skipped = [bool(ctx.is_task_to_be_skipped(TestTask(t, None))) for t in (t_same, t_sub, t_other)]
             effect = {(False, False, False): "none", (True, False, False): "abortSuite", (True, True, True): "abortAll"}.get(
                 tuple(skipped), "other:%r" % (skipped,))
             out = "%s+%derr" % (effect, len(sess.errors))
+            if raised:
+                out = "handle_exception-raised:" + raised
             lean_in = '("%s", %s, %s)' % (kind, "true" if sub else "false", "true" if with_suite else "false")
-            rows.append((lean_in, '"%s"' % out, {"class": cls.__name__, "base": kind, "subclass": sub, "suite_given": with_suite, "out": out}))
+            rows.append((lean_in, '"%s"' % out, {"class": cls.__name__, "base": kind, "subclass": sub, "suite_given": with_suite, "args": shape, "out": out}))
     return C.Table("handleExcTable", "List ((String × Bool × Bool) × String)", rows)
 
 
